@@ -354,7 +354,19 @@ func (e *Env) ident(name string) *Val {
 	if v, ok := e.vars[name]; ok {
 		if v.AutoDeref && v.Loc == nil {
 			if pt, ok := v.T.Underlying().(*types.Pointer); ok {
+				if _, isStruct := structOf(pt.Elem()); isStruct && !e.tr.W.isOpaqueNamed(pt.Elem()) {
+					return v // struct variables are used through field selection
+				}
 				return e.loadCell(e.st, pt.Elem(), v.one())
+			}
+		}
+		if v.AutoDeref && v.Loc != nil && v.Loc.Kind == LLocal {
+			if _, isStruct := structOf(v.Loc.T); !isStruct || e.tr.W.isOpaqueNamed(v.Loc.T) {
+				res := &Val{T: v.Loc.T}
+				for _, a := range e.tr.W.flatten(v.Loc.T) {
+					res.A = append(res.A, e.tr.cur(e.st, Comp{"L." + v.Loc.ID + "." + joinPath(v.Loc.Prefix, a.Path), a.Sort, false}))
+				}
+				return res
 			}
 		}
 		return v
@@ -548,6 +560,12 @@ func (e *Env) call(n ECall) *Val {
 			return intVal("(str_len " + v.one() + ")")
 		}
 		e.fail("len of %v", v.T)
+	case "card": // cardinality of a ghost key set ($seen)
+		v := arg(0)
+		if v.T != nil {
+			e.fail("card needs a ghost set")
+		}
+		return intVal("(card " + v.one() + ")")
 	case "cap":
 		return intVal(arg(0).A[3])
 	case "base":
@@ -691,7 +709,10 @@ func (e *Env) call(n ECall) *Val {
 		}
 		return boolVal("(forall ((" + a + " Int)) (! (=> " + in(a) + " (and " + in("("+pf+" "+a+")") + " " + and(eqs...) + ")) :pattern (" + pat + ")))")
 	case "unchangedHeap":
-		return boolVal(e.tr.unchangedHeap(e.st, e.old, nil, e.allocOld))
+		e.tr.assumingPost = e.assuming
+		r := e.tr.unchangedHeap(e.st, e.old, nil, e.allocOld)
+		e.tr.assumingPost = false
+		return boolVal(r)
 	case "cnt":
 		return e.cnt(n)
 	case "all", "allIdx", "distinctElems":
@@ -723,7 +744,7 @@ func (e *Env) call(n ECall) *Val {
 			}
 			vars[p.Name] = a
 		}
-		ne := &Env{tr: e.tr, vars: vars, st: e.st, old: e.old, pkg: e.tr.W.Pkgs[ps.Pkg].Types, depth: e.depth + 1, allocOld: e.allocOld}
+		ne := &Env{tr: e.tr, vars: vars, st: e.st, old: e.old, pkg: e.tr.W.Pkgs[ps.Pkg].Types, depth: e.depth + 1, allocOld: e.allocOld, assuming: e.assuming}
 		return ne.eval(ps.Body)
 	}
 	e.fail("unknown function %s", n.Fn)
@@ -750,7 +771,8 @@ func (tr *FnCtx) sameOn(cur, old, sort, allocOld string, except []string) string
 }
 
 func (tr *FnCtx) unchangedHeap(st, old *State, except map[string]bool, allocOld string) string {
-	if st.Gen != old.Gen {
+	if st.Gen != old.Gen && !tr.assumingPost {
+		// as a proof goal: components that are not registered yet cannot be shown unchanged across a havoc-all
 		return "false"
 	}
 	var parts []string
